@@ -170,7 +170,7 @@ func RunPipeline(seed int64, tier, driver, outDir string, n int, search bool, co
 		}
 	}
 	failSeen := map[string]bool{}
-	pushes, replies, syncs, reorders, drops, climuts, cuts, windows, qchecks := 0, 0, 0, 0, 0, 0, 0, 0, 0
+	pushes, replies, syncs, reorders, drops, climuts, cuts, windows, qchecks, lost := 0, 0, 0, 0, 0, 0, 0, 0, 0, 0
 	for i, run := range runs {
 		c := cases[i]
 		res.Cases++
@@ -181,6 +181,7 @@ func RunPipeline(seed int64, tier, driver, outDir string, n int, search bool, co
 		syncs += run.Syncs
 		drops += run.SyncDrops
 		windows += run.SyncWindows
+		lost += run.LostInFlight
 		qchecks += run.QuiescentChecks
 		climuts += run.CliMuts
 		cuts += run.Cuts
@@ -236,7 +237,7 @@ func RunPipeline(seed int64, tier, driver, outDir string, n int, search bool, co
 			res.Failures = append(res.Failures, core.FailRec{Prop: "C09", Msg: msg, File: file})
 		}
 	}
-	res.Extra = map[string]any{"pushes": pushes, "replies": replies, "full_syncs": syncs, "sync_answers_dropped": drops, "client_mutations_judged": climuts, "connection_cuts": cuts, "out_of_order_deliveries": reorders, "sync_answer_windows": windows, "quiescent_moments_judged": qchecks}
+	res.Extra = map[string]any{"pushes": pushes, "replies": replies, "full_syncs": syncs, "sync_answers_dropped": drops, "client_mutations_judged": climuts, "connection_cuts": cuts, "out_of_order_deliveries": reorders, "sync_answer_windows": windows, "quiescent_moments_judged": qchecks, "replies_lost_with_a_dropped_connection": lost}
 	res.WallS = time.Since(t0).Seconds()
 	return res
 }
